@@ -43,6 +43,10 @@ func (f *Flatten) Apply(inputs []tensor.Tensor) ([]tensor.Tensor, error) {
 	rank := len(inputShape)
 
 	axis := f.axis
+	if axis < -rank || axis > rank {
+		return nil, ops.ErrAxisOutOfRange(-rank, rank, axis)
+	}
+
 	if axis < 0 {
 		axis = rank + axis
 	}
